@@ -34,32 +34,49 @@ DELIMS = [b"\r\n", b"\n\r\n", b"c"]
 REGEXES = [rb"\r?\n\r?\n", rb"[cd]\r?\n", rb"\n[a-z]"]
 
 
-def _first_end(j, is_regex, pos, upto):
-    buf = DATA[pos:upto]
-    if is_regex:
-        m = re.compile(REGEXES[j]).search(buf)
-        return None if m is None else pos + m.end()
-    i = buf.find(DELIMS[j])
-    return None if i < 0 else pos + i + len(DELIMS[j])
+class Stream:
+    """A concrete stream with its delimiter / regex pools and the reference table
+    end[is_regex][j][pos] = absolute end of the first match in the stream from pos (None: never)."""
+
+    def __init__(self, data, delims, regexes):
+        self.data, self.delims, self.regexes = data, delims, regexes
+        self.end = [[[self.first_end(j, r, pos, len(data)) for pos in range(len(data) + 1)]
+                     for j in range(len(regexes if r else delims))] for r in (False, True)]
+        # assumption check (concrete, every import): the pooled patterns are arrival-independent over this
+        # stream - whenever a match is visible in a delivered prefix it is the stream's first match.
+        for r in (False, True):
+            for j in range(len(regexes if r else delims)):
+                for pos in range(len(data) + 1):
+                    for L in range(pos, len(data) + 1):
+                        e = self.first_end(j, r, pos, L)
+                        assert e is None or e == self.end[r][j][pos], "pattern pool is not prefix-stable"
+
+    def first_end(self, j, is_regex, pos, upto):
+        buf = self.data[pos:upto]
+        if is_regex:
+            m = re.compile(self.regexes[j]).search(buf)
+            return None if m is None else pos + m.end()
+        i = buf.find(self.delims[j])
+        return None if i < 0 else pos + i + len(self.delims[j])
 
 
-# END[is_regex][j][pos] = absolute end of the first match in the stream from pos (None: never)
-END = [[[_first_end(j, r, pos, len(DATA)) for pos in range(len(DATA) + 1)] for j in range(3)]
-       for r in (False, True)]
-# assumption check (concrete, every import): the pooled patterns are arrival-independent over this
-# stream - whenever a match is visible in a delivered prefix it is the stream's first match.
-for _r in (False, True):
-    for _j in range(3):
-        for _pos in range(len(DATA) + 1):
-            for _L in range(_pos, len(DATA) + 1):
-                _e = _first_end(_j, _r, _pos, _L)
-                assert _e is None or _e == END[_r][_j][_pos], "pattern pool is not prefix-stable"
+S0 = Stream(DATA, DELIMS, REGEXES)
+END = S0.end
+
+# Second stream for LONG delimiters (3 and 4 bytes) that straddle deliveries.  Every long delimiter occurs at
+# several offsets and is preceded by false starts ("\r\n\r" + "\r", "EN" + "E") so that a search resumed at a
+# wrong position, or a partial match carried over wrongly, changes the result.
+#         0    1 2   3 4  5  6  7  8  9  10 11 12 13 14 15 16 17 18 19 20 21 22 23
+DATA2 = b"h\r\n\r\nENEND\r\n\r\r\n\r\nEND\n\r\nx"
+DELIMS2 = [b"\r\n\r\n", b"END", b"\n\r\n", b"\r\n"]
+S2 = Stream(DATA2, DELIMS2, [rb"\r\n\r\n", rb"END"])
+STARTS2 = [1, 2, 5, 10]        # read positions: on / inside / before a false start of the long delimiters
 
 # request kinds
 RB, RBP, RI, RIP, RU, RX, RC = range(7)
 
 
-def _issue(s, kind, n, m, holder):
+def _issue(s, kind, n, m, holder, st=S0):
     mb = None if m < 0 else m
     if kind == RB:
         return s.read_bytes(n)
@@ -70,9 +87,9 @@ def _issue(s, kind, n, m, holder):
         holder.append(buf)
         return s.read_into(buf, partial=(kind == RIP))
     if kind == RU:
-        return s.read_until(DELIMS[n], max_bytes=mb)
+        return s.read_until(st.delims[n], max_bytes=mb)
     if kind == RX:
-        return s.read_until_regex(REGEXES[n], max_bytes=mb)
+        return s.read_until_regex(st.regexes[n], max_bytes=mb)
     return s.read_until_close()
 
 
@@ -98,7 +115,7 @@ def _classify(fn, args):
     return None
 
 
-def _drive_reads(env, s, k, reqs, pos):
+def _drive_reads(env, s, k, reqs, pos, st=S0):
     """Issue the requests one after the other, pumping READ events while one is pending.
     Returns the stream position after the last completed read."""
     _TRACK["after_failed"] = False
@@ -108,7 +125,7 @@ def _drive_reads(env, s, k, reqs, pos):
         holder = []
         was_closed = s.closed()
         try:
-            fut = _issue(s, kind, n, m, holder)
+            fut = _issue(s, kind, n, m, holder, st)
             sync_exc = None
         except (iostream.StreamClosedError, iostream.UnsatisfiableReadError) as e:
             sync_exc = e
@@ -116,7 +133,7 @@ def _drive_reads(env, s, k, reqs, pos):
             # only legitimate on a closed stream whose buffered bytes cannot satisfy the request
             assert was_closed and type(sync_exc) is iostream.StreamClosedError, \
                 "read raised %r synchronously (stream closed before the call: %r)" % (sync_exc, was_closed)
-            assert not _satisfiable(kind, n, m, pos, k.rpos, True), \
+            assert not _satisfiable(kind, n, m, pos, k.rpos, True, st), \
                 "read on a closed stream refused although the buffered bytes satisfy it"
             reached("refused_after_close")
             break
@@ -133,7 +150,7 @@ def _drive_reads(env, s, k, reqs, pos):
         mb = None if m < 0 else m
         if not fut.done():
             assert not s.closed(), "stream closed but the pending read was never settled"
-            assert not _satisfiable(kind, n, m, pos, D, False), \
+            assert not _satisfiable(kind, n, m, pos, D, False, st), \
                 "read still pending although the %d delivered-but-unreturned bytes satisfy it" % (D - pos)
             if (kind == RU or kind == RX) and mb is not None:
                 assert D - pos <= mb, \
@@ -147,14 +164,14 @@ def _drive_reads(env, s, k, reqs, pos):
             if isinstance(exc.real_error, iostream.UnsatisfiableReadError):
                 reached("unsatisfiable_closed")
                 assert (kind == RU or kind == RX) and mb is not None, "UnsatisfiableReadError for kind %d" % kind
-                e = END[kind == RX][n][pos]
+                e = st.end[kind == RX][n][pos]
                 assert e is None or e - pos > mb, \
                     "delimiter ends %d bytes in, within max_bytes=%d, but the read was refused" % (e - pos, mb)
                 assert s.error is exc.real_error
             else:
                 # closed by EOF: legitimate only if the stream's bytes cannot satisfy the request
                 assert k.end_seen > 0 and k.cause == 1, "read failed %r without an end of stream" % (exc,)
-                assert not _satisfiable(kind, n, m, pos, D, True), \
+                assert not _satisfiable(kind, n, m, pos, D, True, st), \
                     "stream closed: read failed although buffered bytes satisfy it"
                 reached("failed_at_eof")
             if KEY_AFTER_FAILED in P.exclude:
@@ -188,7 +205,7 @@ def _drive_reads(env, s, k, reqs, pos):
                 if 0 < len(got) < n:
                     reached("partial_short")
             elif kind == RU or kind == RX:
-                e = END[kind == RX][n][pos]
+                e = st.end[kind == RX][n][pos]
                 assert e is not None and len(got) == e - pos, \
                     "delimited read returned %r; first match from %d ends at %r" % (got, pos, e)
                 assert mb is None or len(got) <= mb, \
@@ -199,20 +216,20 @@ def _drive_reads(env, s, k, reqs, pos):
                 assert s.closed(), "read_until_close completed on an open stream"
                 assert len(got) == D - pos, "read_until_close returned %d of %d bytes" % (len(got), D - pos)
                 reached("until_close_done")
-        assert got == DATA[pos:pos + len(got)], \
-            "read returned %r but the stream continues with %r" % (got, DATA[pos:pos + len(got) + 2])
+        assert got == st.data[pos:pos + len(got)], \
+            "read returned %r but the stream continues with %r" % (got, st.data[pos:pos + len(got) + 2])
         assert pos + len(got) <= D
         pos += len(got)
         # ---- nothing lost: what was received and not returned is exactly the stream's next bytes
         assert not s._user_read_buffer
-        assert s._read_buffer_size == D - pos and bytes(s._read_buffer) == DATA[pos:D], \
-            "received-but-unreturned bytes %r, the stream has %r there" % (bytes(s._read_buffer), DATA[pos:D])
+        assert s._read_buffer_size == D - pos and bytes(s._read_buffer) == st.data[pos:D], \
+            "received-but-unreturned bytes %r, the stream has %r there" % (bytes(s._read_buffer), st.data[pos:D])
     assert not env.v.exc_contexts, "exception escaped a callback: %r" % (env.v.exc_contexts,)
     return pos
 
 
-def _satisfiable(kind, n, m, pos, D, closed):
-    """Reference: can the request be completed from the bytes DATA[pos:D] (and the closed flag)?"""
+def _satisfiable(kind, n, m, pos, D, closed, st=S0):
+    """Reference: can the request be completed from the bytes st.data[pos:D] (and the closed flag)?"""
     avail = D - pos
     if kind == RB or kind == RI:
         return avail >= n
@@ -220,7 +237,7 @@ def _satisfiable(kind, n, m, pos, D, closed):
         return avail > 0 or n == 0
     if kind == RC:
         return closed
-    e = END[kind == RX][n][pos]
+    e = st.end[kind == RX][n][pos]
     if e is None or e > D:
         return False
     return m < 0 or e - pos <= m
